@@ -7,7 +7,10 @@ Ties between Model/Gather.v and the real stages:
     workers in the quick tier, <= 4 in the thorough tier); the outputs are compared BITWISE
     with those of the undelayed run; the observed completion order, chunks and seeds are
     fed to the model (Gather.run_gather / run_chunks / run_seeds_sx) and its prediction is
-    compared with what the stage returned.
+    compared with what the stage returned.  Selection: besides the lookup as a mapping, the ORDER of its
+    keys and of the keys of its 'log' entry (= the order of the entries of the query-marker JSON file) is
+    compared between runs whose workers finish in opposite orders, on taxonomies designed to have >= 4
+    selection workers and a single-child parent, and with Gather.run_selection_result (parent_list order).
  W  worker counts: every n_processors in 1..6 on the same input; the model's effective chunk
     size partitions the counts into classes; inside a class the mappings are bitwise equal.
  H  hash seeds: the four stages chained in fresh interpreters with PYTHONHASHSEED = 0,1,2,...;
@@ -360,12 +363,26 @@ def generic_schedules(ctx, rng, stage, tag, make_fn, digest, limit, inj=None, wh
 KEY_ORDER_CLASS = 'c04-lookup-key-order-follows-completion-order'
 
 
-def selection_key_order(ctx, rng, tag, make_fn, what):
-    """The lookup returned by the selection stage is a dict filled by the workers when they are done
-    (select_all_markers: output_dict[parent] = genes; dict(output_dict)): as a MAPPING it is the same
-    under every completion order (generic_schedules, c04_selection_keyed_by_parent); here the ORDER of its
-    keys - which is the order of the entries of the JSON file the query_markers CLI writes - is compared
-    between two runs whose workers are forced to finish their work in opposite orders."""
+def lookup_key(parent):
+    return 'None' if parent is None else f'{parent[0]}/{parent[1]}'
+
+
+def parent_keys_of(stats_path):
+    """The parent_list select_all_markers works through (TaxonomyTree.all_parents), as lookup keys, read
+    from the serialized tree of the statistics file: the root, then level by level in the order of the file."""
+    with h5py.File(stats_path, 'r') as f:
+        tree = json.loads(f['taxonomy_tree'][()].decode('utf-8'))
+    return ['None'] + [f'{lv}/{nd}' for lv in tree['hierarchy'][:-1] for nd in tree[lv]]
+
+
+def selection_key_order(ctx, rng, tag, make_fn, what, parents):
+    """select_all_markers collects the per-parent results in a dict the workers fill when they are done and
+    returns them in the order of its parent_list ({parent: output_dict[parent] for parent in parent_list},
+    the log the same way): the ORDER of the keys of the lookup - which is the order of the entries of the JSON
+    file the query_markers CLI writes - and of its 'log' entry must be the same in two runs whose workers are
+    forced to finish their work in opposite orders (b), and must be the one Gather.run_selection_result
+    gives for parent_list and the observed order in which the dict was filled (a)."""
+    import ast
     base = ctx.scratch / f'ko_{tag}'
     base.mkdir()
     res0, tr0 = run_scheduled(ctx, 'selection', make_fn, base / 'b', None)
@@ -374,7 +391,7 @@ def selection_key_order(ctx, rng, tag, make_fn, what):
         ctx.dist('schedule', f'selection key order skipped (k={k})')
         shutil.rmtree(base, ignore_errors=True)
         return
-    seen = []
+    seen, cases, meta = [], [], []
     for name, sigma in (('f', list(range(k))), ('r', list(range(k - 1, -1, -1)))):
         res, tr = run_scheduled(ctx, 'selection', make_fn, base / name, sigma, before=True)
         worked = completion_order(tr, 'selection', ev='worked')
@@ -383,10 +400,43 @@ def selection_key_order(ctx, rng, tag, make_fn, what):
             ctx.violation(f'selection under schedule {sigma} failed: {res["error"]}',
                           {'class': 'c04-run-failed', 'stage': 'selection', 'intended': sigma, 'input': what})
             continue
-        seen.append((sigma, worked, [kk for kk in res['value'] if kk not in ('log', 'metadata')],
-                     {kk: vv for kk, vv in res['value'].items() if kk not in ('log', 'metadata')}))
+        value = {kk: vv for kk, vv in res['value'].items() if kk not in ('log', 'metadata')}
+        keys, log_keys = list(value), list(res['value'].get('log', {}))
+        seen.append((sigma, worked, keys, log_keys, value))
+        # (a) the order in which output_dict was filled: the parents without a pair of leaves to compare are
+        # filled by the dispatcher itself (no worker; put first - by c04_selection_result_order_independent
+        # their place does not matter), then the parents of the workers in the order they finished their work
+        of_worker = {r['k']: lookup_key(ast.literal_eval(r['info']['parent_node']))
+                     for r in tr if r['ev'] == 'begin' and r['stage'] == 'selection'}
+        by_worker = [of_worker[w] for w in worked]
+        fill = [pk for pk in parents if pk not in by_worker] + by_worker
+        idx = {pk: i for i, pk in enumerate(parents)}
+        vals = []                                   # payload = index of the gene list among the distinct ones
+
+        def val_id(v):
+            if v not in vals:
+                vals.append(v)
+            return vals.index(v)
+        rep = {'stage': 'selection', 'intended': sigma, 'observed_order': worked, 'filled_in_order': fill,
+               'parent_list': parents, 'key_order': keys, 'log_key_order': log_keys, 'input': what}
+        if sorted(fill) != sorted(parents) or set(value) != set(parents):
+            ctx.violation(f'selection: parent_list {parents}, workers ran for {by_worker}, lookup has the keys {keys}',
+                          dict(rep, **{'class': 'corr:Gather.run_selection_result'}), no_input=True)
+            continue
+        cases.append((406, [[idx[pk] for pk in parents], [[idx[pk], val_id(value[pk])] for pk in fill]]))
+        meta.append((rep, [[idx[pk], val_id(value[pk])] for pk in keys], [idx[pk] for pk in log_keys if pk in idx],
+                     len(log_keys)))
+    for (rep, got, got_log, n_log), out in zip(meta, ctx.model(cases) if cases else []):
+        if out[0] != 0 or out[1] != [got]:
+            ctx.violation(f'selection: the returned lookup lists its parents in the order {rep["key_order"]}; '
+                          f'Gather.run_selection_result gives the order of parent_list {rep["parent_list"]}',
+                          dict(rep, model=out, **{'class': 'corr:Gather.run_selection_result'}), no_input=True)
+        elif n_log != len(got) or got_log != [pv[0] for pv in out[1][0]]:
+            ctx.violation(f'selection: the log of the returned lookup lists its parents in the order {rep["log_key_order"]}; '
+                          f'Gather.run_selection_result gives the order of parent_list {rep["parent_list"]}',
+                          dict(rep, model=out, **{'class': 'corr:Gather.run_selection_result'}), no_input=True)
     if len(seen) == 2:
-        (s1, w1, k1, v1), (s2, w2, k2, v2) = seen
+        (s1, w1, k1, l1, v1), (s2, w2, k2, l2, v2) = seen
         if v1 != v2:
             ctx.violation(f'selection: the lookup differs as a mapping between the completion orders {w1} and {w2}',
                           {'class': 'c04-selection-schedule-dependent', 'stage': 'selection', 'observed_orders': [w1, w2], 'input': what})
@@ -394,6 +444,11 @@ def selection_key_order(ctx, rng, tag, make_fn, what):
             ctx.violation(f'selection: the keys of the returned lookup come in the order {k1} when the workers finish in the order '
                           f'{w1} and in the order {k2} when they finish in the order {w2}',
                           {'class': KEY_ORDER_CLASS, 'stage': 'selection', 'observed_orders': [w1, w2], 'key_orders': [k1, k2],
+                           'lookup': v1, 'input': what})
+        elif l1 != l2:
+            ctx.violation(f"selection: the keys of the 'log' entry of the returned lookup come in the order {l1} when the workers "
+                          f'finish in the order {w1} and in the order {l2} when they finish in the order {w2}',
+                          {'class': KEY_ORDER_CLASS, 'stage': 'selection', 'observed_orders': [w1, w2], 'log_key_orders': [l1, l2],
                            'lookup': v1, 'input': what})
         else:
             ctx.traces_validated += 1
@@ -462,6 +517,35 @@ def designed_reference(rng, base, shape, rows_per_leaf=(4, 6)):
     encoding = rng.choice(['csr', 'dense'])
     write_reference(base / 'ref.h5ad', gt, M, labels, genes, encoding)
     return gt, genes, M, labels, encoding
+
+
+KEY_ORDER_SHAPES = ([[2, 2], [2, 2, 1, 2]], [[2, 1], [2, 2, 2]], [[1, 2], [3, 1, 2]], [[3], [2, 2, 1], [2, 1, 2, 2, 2]])
+
+
+def designed_selection_key_order(ctx, rng, tag, shape):
+    """selection_key_order on a taxonomy built to have >= 4 parents with a pair of leaves to compare (one
+    selection worker each, all running at once) and at least one parent with a single child (filled by the
+    dispatcher, no worker); node names drawn so that the order of the tree differs from the sorted one."""
+    base = ctx.scratch / f'kd_{tag}'
+    base.mkdir()
+    gt, genes, M, labels, encoding = designed_reference(rng, base, shape, rows_per_leaf=(3, 4))
+    with K.quiet():
+        K.stats_call(base, base, gt, 50, 1)()
+        K.markers_call(base / 'stats.h5', base, 2)()
+        with h5py.File(base / 'refm.h5', 'a') as f:
+            f.create_dataset('metadata', data=json.dumps({'precomputed_path': str(base / 'stats.h5')}).encode('utf-8'))
+    qgenes = list(genes)
+    rng.shuffle(qgenes)
+
+    def mk_sel(d):
+        d.mkdir()
+        return K.selection_call(base / 'refm.h5', qgenes, d, 8, 1000)
+    parents = parent_keys_of(base / 'stats.h5')
+    ctx.dist('selection_key_order', f'{gt.shape_key()} parents={len(parents)}')
+    selection_key_order(ctx, rng, f'd{tag}', mk_sel, parents=parents,
+                        what={'shape': shape, 'tree': gt.data, 'genes': genes, 'query_genes': qgenes, 'reference_X': M.tolist(),
+                              'reference_obs': {lv: [lab[i] for lab in labels] for i, lv in enumerate(gt.levels)}})
+    shutil.rmtree(base, ignore_errors=True)
 
 
 def stats_call2(base, d, gt, rows_at_a_time, n_processors, normalization):
@@ -699,6 +783,7 @@ with K.quiet():
         f.create_dataset('metadata', data=json.dumps({'precomputed_path': str(d / 'stats.h5')}).encode('utf-8'))
     K.pmask_call(d / 'stats.h5', d, spec['p_markers'])()
     lookup = K.selection_call(d / 'refm.h5', spec['query_genes'], d, spec['p_sel'], spec['behemoth'])()
+json.dump(list(lookup.get('log', {})), open(d / 'log_keys.json', 'w'))
 lookup = {k: v for k, v in lookup.items() if k not in ('metadata', 'log')}
 json.dump(lookup, open(d / 'markers.json', 'w'))
 for i, m in enumerate(spec['mappings']):
@@ -758,7 +843,8 @@ def hash_seed_chain(ctx, base, tag, gt, spec, seeds, inp, designed):
         lk = json.load(open(d / 'markers.json'))
         # the lookup as a mapping parent -> ordered gene list, and (separately) the order of its keys
         dg = {'stats': h5_digest(d / 'stats.h5'), 'markers': h5_digest(d / 'refm.h5'),
-              'mask': h5_digest(d / 'mask.h5'), 'lookup': lk, 'lookup_key_order': list(lk.keys())}
+              'mask': h5_digest(d / 'mask.h5'), 'lookup': lk, 'lookup_key_order': list(lk.keys()),
+              'lookup_log_key_order': json.load(open(d / 'log_keys.json'))}
         for i in range(len(spec['mappings'])):
             dg[f'mapping{i}'] = mapping_digest(d / f'm{i}')
         digs[name] = dg
@@ -780,12 +866,14 @@ def hash_seed_chain(ctx, base, tag, gt, spec, seeds, inp, designed):
         if first not in digs or name not in digs:
             continue
         bad = diff_keys(digs[first], digs[name])
-        if 'lookup_key_order' in bad:
-            bad.remove('lookup_key_order')
-            ctx.violation(f'the keys of the query-marker lookup come in a different order in two runs on the same input '
-                          f'(PYTHONHASHSEED={seeds[0]} and {hs}): {digs[first]["lookup_key_order"]} vs {digs[name]["lookup_key_order"]}',
-                          dict(inp, hash_seeds=[seeds[0], hs], key_orders=[digs[first]['lookup_key_order'], digs[name]['lookup_key_order']],
-                               **{'class': KEY_ORDER_CLASS}))
+        for ko, ko_what in (('lookup_key_order', 'the query-marker lookup'),
+                            ('lookup_log_key_order', "the 'log' entry of the query-marker lookup")):
+            if ko in bad:
+                bad.remove(ko)
+                ctx.violation(f'the keys of {ko_what} come in a different order in two runs on the same input '
+                              f'(PYTHONHASHSEED={seeds[0]} and {hs}): {digs[first][ko]} vs {digs[name][ko]}',
+                              dict(inp, hash_seeds=[seeds[0], hs], which=ko, key_orders=[digs[first][ko], digs[name][ko]],
+                                   **{'class': KEY_ORDER_CLASS}))
         if not bad:
             ctx.traces_validated += 1
             continue
@@ -883,8 +971,10 @@ def run(ctx):
         '(JSON keys config/log/metadata, HDF5 dataset metadata, the metadata entry (timestamp) of a serialized taxonomy '
         'tree, CSV comment lines)',
         'CPU code path only (torch is not installed)',
-        'the query-marker lookup is compared as a mapping (parent -> ordered gene list); the order of its keys is compared '
-        'separately under its own class ' + KEY_ORDER_CLASS + ' (known finding: it follows the completion order of the workers)',
+        'the query-marker lookup is compared as a mapping (parent -> ordered gene list) AND by the order of its keys (the order '
+        'of the entries of the query-marker JSON file; class ' + KEY_ORDER_CLASS + '): same key order, and same order of the '
+        "keys of its 'log' entry, under opposite completion orders of the selection workers and under every hash seed, and the "
+        'order is that of parent_list (Gather.run_selection_result); the VALUES of the log (durations) are not compared',
         'B: the merge order of the statistics buffers is observed through a harness-side proxy of the module-level '
         'name h5py of precompute_from_anndata (reads of precomputation_buffer_* files in the parent process)',
         'H: a hash-seed dependence can only be seen if the string hashes of the two interpreters order the names '
@@ -938,7 +1028,8 @@ def run(ctx):
         generic_schedules(ctx, rng, 'selection', f'{rd}', mk_sel,
                           lambda d, res: {kk2: vv for kk2, vv in res['value'].items() if kk2 not in ('log', 'metadata')},
                           4 if q else 12, what='query marker selection')
-        selection_key_order(ctx, rng, f'{rd}', mk_sel, what={'tree': gt.data, 'n_rows': n_rows, 'genes': genes})
+        selection_key_order(ctx, rng, f'{rd}', mk_sel, what={'tree': gt.data, 'n_rows': n_rows, 'genes': genes},
+                            parents=parent_keys_of(fb / 'stats.h5'))
         shutil.rmtree(fb, ignore_errors=True)
     # B: bitwise statistics on data with inexact float sums
     stats_bitwise(ctx, rng, 'a', 3, 'log2CPM', reps=3, limit=lim3)
@@ -961,6 +1052,12 @@ def run(ctx):
         designed_hash_seed_runs(ctx, rng, 'dd', [[2], [3, 2], [2, 2, 2, 1, 2]], [1, 2, 3, 4, 77, 4242])
         designed_hash_seed_runs(ctx, rng, 'de', [[3, 2], [2, 2, 2, 3, 2]], [0, 1, 2, 3, 4, 5])
         designed_hash_seed_runs(ctx, rng, 'df', [[2], [2, 2], [2, 2, 2, 2]], [8, 9, 10, 11, 12, 13])
+    # S: key order of the query-marker lookup on taxonomies with several selection workers (last: the
+    # random stream of the scenarios above is the one it was before this scenario existed)
+    shapes = [rng.choice(KEY_ORDER_SHAPES)] if q else list(KEY_ORDER_SHAPES) + [rng.choice(KEY_ORDER_SHAPES)]
+    for i, shape in enumerate(shapes):
+        designed_selection_key_order(ctx, rng, f'{i}', shape)
+    faults.uninstall()
 
 
 def replay(ctx, rec):
